@@ -362,10 +362,6 @@ theorem eval_leaf_lookup (env : List Json) (inp : Json) (s : Nat) (a k vp : List
         rw [eval_pipe, eval_pipe, harr, bindRes_single, eval_pipe]
       rw [hpipe, eval_add_objs]
 
-def Leaf.slot' : Leaf → Nat
-  | .plain s _ => s
-  | .lookup s _ _ _ _ => s
-
 theorem eval_leafExpr (env : List Json) (inp : Json) (l : Leaf) (h : l.slot' < env.length) :
     eval (leafExpr l) env inp = .ok [evalLeaf env l] := by
   cases l with
@@ -601,5 +597,236 @@ theorem eval_arrayJoin (inp : Json) (groups : List (List Json)) (pre post : List
   unfold arrJoinVals
   cases h1 : (flattenL xs).all Json.isNull <;> cases h2 : (flattenL xs).isEmpty <;>
     simp [truthy, eval]
+
+/-! ### binding the leaves and the fields -/
+
+theorem eval_bind (e body : Expr) (env : List Json) (inp : Json) :
+    eval (.bind e body) env inp = bindRes (eval e env inp) fun v => eval body (env ++ [v]) inp := by
+  simp only [eval]
+
+/-- `es` evaluate one after the other, each seeing the values of the earlier ones appended to `env` -/
+def EvalsTo (inp : Json) : List Expr → List Json → List Json → Prop
+  | [], [], _ => True
+  | e :: es, v :: vs, env => eval e env inp = .ok [v] ∧ EvalsTo inp es vs (env ++ [v])
+  | _, _, _ => False
+
+theorem eval_bindAll (inp : Json) (body : Expr) : ∀ (es : List Expr) (vals env : List Json),
+    EvalsTo inp es vals env → eval (bindAll es body) env inp = eval body (env ++ vals) inp
+  | [], [], env, _ => by simp [bindAll]
+  | [], _ :: _, _, h => absurd h (by simp [EvalsTo])
+  | _ :: _, [], _, h => absurd h (by simp [EvalsTo])
+  | e :: es, v :: vs, env, h => by
+    obtain ⟨h1, h2⟩ := h
+    rw [bindAll, eval_bind, h1, bindRes_single, eval_bindAll inp body es vs (env ++ [v]) h2]
+    simp
+
+theorem getD_append_lt' (env suf : List Json) (s : Nat) (h : s < env.length) :
+    (env ++ suf).getD s .null = env.getD s .null := by
+  simp [List.getD, List.getElem?_append_left h]
+
+theorem evalLeaf_prefix (env suf : List Json) (l : Leaf) (h : l.slot' < env.length) :
+    evalLeaf (env ++ suf) l = evalLeaf env l := by
+  cases l with
+  | plain s p => simp only [evalLeaf]; rw [getD_append_lt' env suf s h]
+  | lookup s a k vp kv => simp only [evalLeaf]; rw [getD_append_lt' env suf s h]
+
+theorem leaves_evalsTo (inp : Json) (L : List Json) : ∀ (leaves : List Leaf) (extra : List Json),
+    (∀ l ∈ leaves, l.slot' < L.length) →
+    EvalsTo inp (leaves.map leafExpr) (leaves.map (evalLeaf L)) (L ++ extra)
+  | [], _, _ => trivial
+  | l :: ls, extra, h => by
+    have hl := h l (by simp)
+    refine ⟨?_, ?_⟩
+    · rw [eval_leafExpr _ inp l (by simp; omega), evalLeaf_prefix L extra l hl]
+    · have := leaves_evalsTo inp L ls (extra ++ [evalLeaf L l]) (fun x hx => h x (by simp [hx]))
+      simpa [List.append_assoc] using this
+
+theorem partStr_eq (env : List Json) (p : List Leaf) :
+    partStr env p = if (alt env p).isNull then none else some (tostring (alt env p)) := by
+  unfold partStr
+  cases alt env p <;> rfl
+
+theorem evalString_eq (env : List Json) (parts : List (List Leaf)) :
+    evalString env parts = strJoinVals (parts.map (alt env)) := by
+  unfold evalString strJoinVals
+  have h1 : (parts.map (partStr env)).any Option.isNone = (parts.map (alt env)).any Json.isNull := by
+    induction parts with
+    | nil => rfl
+    | cons p ps ih =>
+      simp only [List.map_cons, List.any_cons, ih, partStr_eq]
+      cases (alt env p).isNull <;> rfl
+  rw [h1]
+  cases hn : (parts.map (alt env)).any Json.isNull with
+  | true => rfl
+  | false =>
+    simp only [Bool.false_eq_true, if_false]
+    congr 2
+    clear h1
+    induction parts with
+    | nil => rfl
+    | cons p ps ih =>
+      simp only [List.map_cons, List.any_cons, Bool.or_eq_false_iff] at hn
+      simp only [List.map_cons, partStr_eq, hn.1, Bool.false_eq_true, if_false, List.filterMap_cons, id]
+      rw [ih hn.2]
+
+theorem evalArray_eq (env : List Json) (parts : List (List Leaf)) :
+    evalArray env parts = arrJoinVals (parts.map (alt env)) := rfl
+
+/-- the values of the output variables collected so far -/
+def outVals (env : List Json) (outs : List (String × Nat)) : Option (List (String × Json)) :=
+  outs.mapM fun (p : String × Nat) => (env[p.2]?).map fun v => (p.1, v)
+
+theorem outVals_append (env suf : List Json) : ∀ (outs : List (String × Nat)) (vs : List (String × Json)),
+    outVals env outs = some vs → outVals (env ++ suf) outs = some vs
+  | [], vs, h => by simpa [outVals] using h
+  | (n, i) :: outs, vs, h => by
+    simp only [outVals, List.mapM_cons] at h ⊢
+    cases hi : env[i]? with
+    | none => simp [hi] at h
+    | some v =>
+      have hlt : i < env.length := by
+        rcases List.getElem?_eq_some_iff.mp hi with ⟨hlt, _⟩
+        exact hlt
+      have hi' : (env ++ suf)[i]? = some v := by rw [List.getElem?_append_left hlt]; exact hi
+      simp only [hi, Option.map_some, Option.pure_def, Option.bind_eq_bind, Option.bind_some] at h
+      simp only [hi', Option.map_some, Option.pure_def, Option.bind_eq_bind, Option.bind_some]
+      cases hr : outs.mapM (fun (p : String × Nat) => (env[p.2]?).map fun v => (p.1, v)) with
+      | none => simp [hr] at h
+      | some r =>
+        have := outVals_append env suf outs r hr
+        simp only [outVals] at this
+        simp only [hr, Option.bind_some] at h
+        simp only [this, Option.bind_some]
+        exact h
+
+theorem outVals_snoc (env : List Json) (outs : List (String × Nat)) (vs : List (String × Json)) (n : String) (v : Json)
+    (h : outVals env outs = some vs) : outVals (env ++ [v]) (outs ++ [(n, env.length)]) = some (vs ++ [(n, v)]) := by
+  have h' := outVals_append env [v] outs vs h
+  simp only [outVals] at h' ⊢
+  rw [List.mapM_append, h']
+  simp [List.mapM_cons]
+
+/-- every leaf reads a loop variable that exists, every field has a part and every part an alternative -/
+def wfFields (n : Nat) (fields : List (String × Spec)) : Prop :=
+  ∀ f ∈ fields, f.2.parts ≠ [] ∧ ∀ p ∈ f.2.parts, p ≠ [] ∧ ∀ l ∈ p, l.slot' < n
+
+theorem eval_emitFields (inp : Json) (L : List Json) : ∀ (fields : List (String × Spec)) (extra : List Json)
+    (outs : List (String × Nat)) (vs : List (String × Json)),
+    wfFields L.length fields → outVals (L ++ extra) outs = some vs →
+    eval (emitFields (L ++ extra).length fields outs) (L ++ extra) inp =
+      .ok [.obj (vs ++ fields.map fun f => (f.1, evalField L f.2))]
+  | [], extra, outs, vs, _, ho => by
+    simp only [emitFields, eval, List.map_nil, List.append_nil]
+    simp only [outVals] at ho
+    rw [ho]
+  | (n, s) :: rest, extra, outs, vs, hwf, ho => by
+    obtain ⟨hparts, hp⟩ := hwf (n, s) (by simp)
+    have hslots : ∀ l ∈ s.leaves, l.slot' < L.length := by
+      intro l hl
+      simp only [Spec.leaves, List.mem_flatten] at hl
+      obtain ⟨p, hpm, hlp⟩ := hl
+      exact (hp p hpm).2 l hlp
+    simp only [emitFields]
+    rw [eval_bindAll inp _ _ _ _ (leaves_evalsTo inp L s.leaves extra hslots), eval_bind]
+    -- the joined value
+    let groups := s.parts.map fun p => p.map (evalLeaf L)
+    have hfl : s.leaves.map (evalLeaf L) = groups.flatten := by
+      simp only [Spec.leaves, groups, List.map_flatten]
+    have hsz : s.sizes = groups.map List.length := by
+      simp only [Spec.sizes, groups, List.map_map]
+      apply List.map_congr_left
+      intro p _
+      simp
+    have hgne : ∀ g ∈ groups, g ≠ [] := by
+      intro g hg
+      simp only [groups, List.mem_map] at hg
+      obtain ⟨p, hpm, rfl⟩ := hg
+      simpa using (hp p hpm).1
+    have hg0 : groups ≠ [] := by simpa [groups] using hparts
+    have halt : groups.map altVals = s.parts.map (alt L) := by
+      simp only [groups, List.map_map]
+      apply List.map_congr_left
+      intro p _
+      simp [alt_eq_altVals]
+    have hjoin : eval (if s.isArray then arrayJoin (L ++ extra).length s.sizes else stringJoin (L ++ extra).length s.sizes)
+        (L ++ extra ++ s.leaves.map (evalLeaf L)) inp = .ok [evalField L s] := by
+      rw [hfl, hsz]
+      have e0 : L ++ extra ++ groups.flatten = L ++ extra ++ groups.flatten ++ [] := by simp
+      rw [e0]
+      unfold evalField
+      cases s.isArray with
+      | true =>
+        simp only [if_true]
+        rw [eval_arrayJoin inp groups (L ++ extra) [] hgne hg0, halt, evalArray_eq]
+      | false =>
+        simp only [Bool.false_eq_true, if_false]
+        rw [eval_stringJoin inp groups (L ++ extra) [] hgne hg0, halt, evalString_eq]
+    rw [hjoin, bindRes_single]
+    -- the rest of the fields, in the longer environment
+    have henv : L ++ extra ++ s.leaves.map (evalLeaf L) ++ [evalField L s] =
+        L ++ (extra ++ s.leaves.map (evalLeaf L) ++ [evalField L s]) := by simp
+    have hlen : (L ++ extra).length + s.leaves.length + 1 =
+        (L ++ (extra ++ s.leaves.map (evalLeaf L) ++ [evalField L s])).length := by
+      simp; omega
+    have ho' : outVals (L ++ (extra ++ s.leaves.map (evalLeaf L) ++ [evalField L s]))
+        (outs ++ [(n, (L ++ extra).length + s.leaves.length)]) = some (vs ++ [(n, evalField L s)]) := by
+      have h1 := outVals_append (L ++ extra) (s.leaves.map (evalLeaf L)) outs vs ho
+      have h2 := outVals_snoc _ outs vs n (evalField L s) h1
+      have e1 : (L ++ extra ++ s.leaves.map (evalLeaf L)).length = (L ++ extra).length + s.leaves.length := by
+        simp only [List.length_append, List.length_map]
+      rw [e1, henv] at h2
+      exact h2
+    rw [henv, hlen]
+    rw [eval_emitFields inp L rest _ _ _ (fun f hf => hwf f (by simp [hf])) ho']
+    simp
+
+/-! ### the loops -/
+
+def loopStep (envs : List (List Json)) (d : Nat × List String) : List (List Json) :=
+  envs.flatMap (bindVar d.1 d.2)
+
+theorem foldl_loopStep_flatMap : ∀ (order : List (Nat × List String)) (E : List (List Json)),
+    order.foldl loopStep E = E.flatMap fun e => order.foldl loopStep [e]
+  | [], E => by simp
+  | d :: rest, E => by
+    simp only [List.foldl_cons]
+    rw [foldl_loopStep_flatMap rest (loopStep E d)]
+    simp only [loopStep, List.flatMap_assoc]
+    congr 1
+    funext e
+    rw [foldl_loopStep_flatMap rest ([e].flatMap (bindVar d.1 d.2))]
+    simp
+
+theorem eval_emitLoops (inp : Json) (body : Expr) (f : List Json → Json) (N : Nat)
+    (hbody : ∀ env', env'.length = N → eval body env' inp = .ok [f env']) :
+    ∀ (order : List (Nat × List String)) (env : List Json), env.length + order.length = N →
+    wfOrder env.length order = true →
+    eval (emitLoops order body) env inp = .ok ((order.foldl loopStep [env]).map f)
+  | [], env, hN, _ => by
+    simp only [emitLoops, List.foldl_nil, List.map_cons, List.map_nil]
+    exact hbody env (by simpa using hN)
+  | d :: rest, env, hN, hwf => by
+    simp only [wfOrder, Bool.and_eq_true, decide_eq_true_eq] at hwf
+    simp only [emitLoops]
+    rw [eval_bind, eval_loopExpr env inp d.1 d.2 hwf.1, bindRes_ok]
+    have hstep : (fun v => eval (emitLoops rest body) (env ++ [v]) inp) =
+        fun v => .ok ((rest.foldl loopStep [env ++ [v]]).map f) := by
+      funext v
+      exact eval_emitLoops inp body f N hbody rest (env ++ [v]) (by simp at hN ⊢; omega) (by simpa using hwf.2)
+    rw [hstep, bindOuts_ok]
+    congr 1
+    simp only [List.foldl_cons]
+    rw [foldl_loopStep_flatMap rest (loopStep [env] d)]
+    simp only [loopStep, List.flatMap_cons, List.flatMap_nil, List.append_nil, bindVar, List.flatMap_map,
+      List.map_flatMap]
+
+theorem wfFields_of_B (n : Nat) (fields : List (String × Spec)) (h : wfFieldsB n fields = true) :
+    wfFields n fields := by
+  intro f hf
+  simp only [wfFieldsB, List.all_eq_true, Bool.and_eq_true, Bool.not_eq_true', decide_eq_true_eq] at h
+  obtain ⟨h1, h2⟩ := h f hf
+  refine ⟨by intro e; simp [e] at h1, fun p hp => ?_⟩
+  obtain ⟨h3, h4⟩ := h2 p hp
+  exact ⟨by intro e; simp [e] at h3, h4⟩
 
 end O2P.Jq
